@@ -63,6 +63,20 @@ def render_point(fmt, v):
     except Exception as e:  # noqa
         raise Failure("render-raises", f"num_to_str({v!r}, {fmt!r}): {type(e).__name__}: {e}")
     cls = _render_class(fmt, t, v)
+    if int(abs(v) * 1000) % 8 == 0:
+        # the rendering is a function of (value, format) alone: not of interpreter-wide state an application may have
+        # changed for its own purposes (a deterministic 1-in-8 sample of the points is rendered again under a low-precision
+        # decimal context)
+        import decimal
+
+        with decimal.localcontext() as dctx:
+            dctx.prec = 5
+            try:
+                t2 = values.num_to_str(v, fmt)
+            except Exception as e:  # noqa
+                raise Failure("render-depends-on-ambient-state:raises", f"num_to_str({v!r}, {fmt!r}) under decimal prec=5: {type(e).__name__}: {e}")
+        if t2 != t:
+            raise Failure(f"render-depends-on-ambient-state:{cls}", f"num_to_str({v!r}, {fmt!r}) = {t!r}, but {t2!r} under a decimal context with prec=5")
     try:
         one_parts.OneNumber(name="n", value=t)
         def_parts.DefNumber(name="n", format=fmt, min=0, max=0, step=0, value=t)
